@@ -344,6 +344,7 @@ func TestCheck(t *testing.T) {
 	consume(t, s, thorough)
 	aliasing(t, s, thorough)
 	heldRecords(t, s, thorough)
+	connBatchSequences(t, s, thorough)
 	s.Finish()
 }
 
